@@ -726,14 +726,43 @@ fn rep_prefix_forgery<P: SigmaProtocol, T: Tx>(
     ctx: &mut Ctx,
 ) -> CheckResult {
     use rand::SeedableRng;
-    if n < 2 {
+    if n < 1 {
         return Ok(());
     }
     let mut rng = rand::rngs::StdRng::seed_from_u64(n as u64);
     let t0: T = cx.build();
     let full = build(n);
+    // surplus responses: an honest proof whose response vector is really lengthened by one element
+    // (count bumped, a copy of the last or the first response appended) must be rejected
+    if let Some(honest) = prove(&mut t0.fork(), &full, wit(n), &mut rng) {
+        let b = to_bytes(&honest);
+        let body = b.len() - 36; // challenge (32) + u32 count
+        if body % n == 0 && body > 0 && u32::from_be_bytes(b[32..36].try_into().unwrap()) as usize == n {
+            let each = body / n;
+            for from_last in [true, false] {
+                let mut c = b.clone();
+                c[32..36].copy_from_slice(&((n + 1) as u32).to_be_bytes());
+                let src = if from_last { b.len() - each..b.len() } else { 36..36 + each };
+                c.extend_from_slice(&b[src]);
+                let mut cur = std::io::Cursor::new(&c[..]);
+                if let Ok(p2) = from_bytes::<SigmaProof<<ReplicateAdapter<P> as SigmaProtocol>::Response>, _>(&mut cur) {
+                    ctx.class("surplus-response");
+                    if verify(&mut t0.fork(), &full, &p2) {
+                        return Err(Violation::new(
+                            "surplus-response",
+                            format!("{proto} ({}): an honest proof for {n} replicated statements still verifies with {} responses (one appended)", T::NAME, n + 1),
+                        )
+                        .with_signature(format!("surplus-response:{proto}")));
+                    }
+                }
+            }
+        } else {
+            ctx.class("surplus-response:layout-unknown");
+        }
+    }
     let mut ks = vec![1, n / 2, n - 1];
     ks.dedup();
+    ks.retain(|k| *k >= 1 && *k < n);
     for k in ks {
         let cheat = PrefixCheat { full: build(n), prefix: build(k) };
         let Some(forged) = prove(&mut t0.fork(), &cheat, wit(k), &mut rng) else {
